@@ -6,8 +6,8 @@ import itertools
 import sys
 import types
 
-EDGE_KINDS = ["direct", "optional", "list", "dict", "tuplevar", "pipe"]
-CLOSING_KINDS = ["optional", "list", "dict", "tuplevar", "pipe"]  # kinds through which a finite value can end
+EDGE_KINDS = ["direct", "optional", "list", "dict", "tuplevar", "pipe", "nonefirst", "unionnone"]
+CLOSING_KINDS = ["optional", "list", "dict", "tuplevar", "pipe", "nonefirst", "unionnone"]  # kinds through which a finite value can end
 
 _COUNTER = [0]
 
@@ -20,6 +20,8 @@ def ann(kind, target):
         "dict": f"dict[str, {target}]",
         "tuplevar": f"tuple[{target}, ...]",
         "pipe": f"{target} | None",
+        "nonefirst": f"None | {target}",                # None declared first, PEP 604 spelling
+        "unionnone": f"typing.Union[None, {target}]",   # None declared first, typing spelling
     }[kind]
 
 
@@ -112,7 +114,7 @@ class Topology:
                 # a direct edge cannot be left empty: below the requested depth it carries a minimal value of its target
                 # (finite because the direct-only subgraph is acyclic, see closing_kinds_with_direct)
                 kw[name] = sub() if sub else self.value(b, 0, rng, 1)
-            elif kind in ("optional", "pipe"):
+            elif kind in ("optional", "pipe", "nonefirst", "unionnone"):
                 kw[name] = sub() if sub else None
             elif kind == "list":
                 kw[name] = [sub() for _ in range(rng.randrange(1, branching + 1))] if sub else []
